@@ -11,7 +11,7 @@ var allRF = []int{1, 2, 3, 3, 4, 5}
 // ---- C02 -------------------------------------------------------------------
 
 var c02Cfg = SGenCfg{RFs: allRF, MinOps: 4, MaxOps: 24, FaultPct: 55, SlowFaults: true, MaxSlow: 2,
-	W: map[string]int{"write": 44, "sync": 8, "unmap": 8, "read": 8, "readd": 10, "promote": 4, "remove": 2, "iorace": 3}}
+	W: map[string]int{"write": 44, "sync": 8, "unmap": 8, "read": 8, "readd": 10, "promote": 4, "remove": 2, "iorace": 3, "addwrite": 4}}
 
 func TestC02(t *testing.T) {
 	runStackProperty(t, "C02", "TestC02", func(rt *rapid.T) SProgram { return GenSProgram(rt, c02Cfg) },
@@ -83,7 +83,7 @@ func TestC13(t *testing.T) {
 // ---- C07 (merge tier) --------------------------------------------------------
 
 var c07Cfg = SGenCfg{RFs: []int{2, 3, 3}, MinOps: 3, MaxOps: 14, FaultPct: 25, Blocks: 16, FillPct: 70,
-	W: map[string]int{"write": 40, "snapshot": 10, "rebuildnew": 22, "remove": 8, "nodedrop": 4, "read": 6, "sync": 2}}
+	W: map[string]int{"write": 38, "snapshot": 10, "rebuildnew": 22, "remove": 8, "nodedrop": 4, "read": 6, "sync": 2, "addwrite": 4}}
 
 func TestC07(t *testing.T) {
 	runStackProperty(t, "C07", "TestC07", func(rt *rapid.T) SProgram { return GenSProgram(rt, c07Cfg) },
